@@ -385,6 +385,61 @@ def probe_mixed(E, env, rho):
     return mixed
 
 
+def _flat_contact(A, env, tol):
+    """rows near exactly two leaf boundaries: do both consist, within 5*tol of the row, of ONE straight
+    piece each and do the two pieces lie on exactly the same line (same end point in 1-D)?  Then the
+    5*tol-ball is split by that single line and membership is constant on either side, so a probe ring
+    that is not mixed proves that the row is not a boundary point.  Only for parameter-free interval /
+    parallelogram / triangle / polygon leaves that are not moved (exact float64 coordinates)."""
+    N = env_len(env)
+    out = np.zeros(N, dtype=bool)
+    leaves = []
+    for n in walk(A):
+        if n["t"] in ("translate", "rotate", "product"):
+            return out
+        if n["t"] in LEAVES:
+            if n["t"] not in ("interval", "par", "tri", "poly") or any(
+                    isinstance(v, dict) and v.get("k", "const") != "const" for v in n.values()):
+                return out
+            leaves.append(n)
+    var = leaves[0]["var"]
+    x = np.asarray(env[var], dtype=np.float64)
+    segs = []
+    for n in leaves:
+        if n["t"] == "interval":
+            segs.append([pval(n["lo"], {}, 1)[0, 0], pval(n["hi"], {}, 1)[0, 0]])
+        else:
+            rings = [_leaf_polygon(n, {}, 1)[0]] if n["t"] != "poly" else [np.asarray(r, float) for r in _rings(n)]
+            segs.append([(r[i], r[(i + 1) % len(r)]) for r in rings for i in range(len(r))])
+    for j in range(N):
+        pieces = []
+        for n, sg in zip(leaves, segs):
+            if n["t"] == "interval":
+                close = [e for e in sg if abs(x[j, 0] - e) <= 5 * tol]
+            else:
+                close = []
+                for a, b in sg:
+                    ab = b - a
+                    tt = np.clip(np.dot(x[j] - a, ab) / np.dot(ab, ab), 0.0, 1.0)
+                    if np.linalg.norm(x[j] - (a + tt * ab)) <= 5 * tol:
+                        close.append((a, b))
+            if len(close) > 1:
+                pieces = None
+                break
+            pieces += close
+        if not pieces or len(pieces) != 2:
+            continue
+        if leaves[0]["t"] == "interval":
+            out[j] = pieces[0] == pieces[1]
+        else:
+            (a1, b1), (a2, b2) = pieces
+            d = b1 - a1
+            sc = float(np.dot(d, d))
+            cr = lambda q: abs(d[0] * (q - a1)[1] - d[1] * (q - a1)[0])      # noqa: E731
+            out[j] = cr(a2) <= 1e-12 * sc and cr(b2) <= 1e-12 * sc
+    return out
+
+
 def status(E, env, tol):
     """Three-valued judgement with tolerance: IN (certainly in the denoted set / for boundary
     nodes certainly within 4*tol of the boundary), OUT (certainly not, by more than tol),
@@ -430,6 +485,11 @@ def status(E, env, tol):
             res = np.full(len(idx), UNDECIDED)
             res[mixed] = IN
             res[~mixed & single] = OUT
+            two = ~mixed & (near5[idx] == 2)
+            if two.any():
+                flat = _flat_contact(A, {k: np.asarray(v)[two] for k, v in sub.items()}, tol)
+                jj = np.where(two)[0]
+                res[jj[flat]] = OUT
             out[idx] = res
         return out
     # interior expression
